@@ -6,11 +6,11 @@ maildirs; the per-message outcomes (defective -> error and untouched, healthy ->
 outcome lists from which the model's main() (MainDefs.main) computes the exit status.  stdin mode:
 every kind of outcome and every single I/O fault of the spool phase.  Monitor: neighbours of a
 defective message are processed completely; status 0 iff nothing was defective."""
-import os
+import os, re
 import common, mdrun, iorun, c01
 
-KINDS_OK = ['plain', 'date-ok', 'b64-ok', 'mime-ok', 'dest:ok2', 'exec:0', 'flags-ok', 'attblock-ok']
-KINDS_BAD = ['date-bad', 'b64-bad', 'mime-deep', 'dest:nowhere', 'exec:3', 'interp', 'flags-bad', 'mime-noterm', 'attblock-bad', 'attblock-badlast']
+KINDS_OK = ['plain', 'date-ok', 'b64-ok', 'mime-ok', 'dest:ok2', 'exec:0', 'flags-ok', 'attblock-ok', 'cmdarg:0']
+KINDS_BAD = ['date-bad', 'b64-bad', 'mime-deep', 'dest:nowhere', 'exec:3', 'interp', 'flags-bad', 'mime-noterm', 'attblock-bad', 'attblock-badlast', 'cmdinterp', 'dirinterp']
 
 
 def nested(depth):
@@ -22,7 +22,7 @@ def nested(depth):
 
 def make_message(kind, i):
     mk = iorun.marker(i)
-    hdr = b'To: u%d@example.com\nX-Kind: %s\n' % (i, kind.split('-')[0].encode() if kind.startswith(('date', 'b64', 'mime', 'flags', 'plain', 'interp', 'attblock')) else kind.encode())
+    hdr = b'To: u%d@example.com\nX-Kind: %s\n' % (i, kind.split('-')[0].encode() if kind.startswith(('date', 'b64', 'mime', 'flags', 'plain', 'interp', 'attblock', 'cmdinterp', 'dirinterp')) else kind.encode())
     name = '1500000000.%d_1.h' % i
     body = mk + b'\n'
     if kind == 'date-ok':
@@ -63,6 +63,9 @@ CONF = '''maildir "%(src)s" {
 	match header "X-Kind" /^dest:(.*)$/ move "%(dst)s/\\1"
 	match header "X-Kind" /^exec:([0-9]+)$/ exec { "sh" "-c" "exit \\1" } move "%(dst)s/ok"
 	match header "X-Kind" /^interp/ move "%(dst)s/\\5"
+	match header "X-Kind" /^cmdinterp/ and command { "true" "\\5" } move "%(dst)s/ok2"
+	match header "X-Kind" /^dirinterp/ and ! isdirectory "%(dst)s/\\5" move "%(dst)s/ok2"
+	match header "X-Kind" /^cmdarg:([0-9]+)$/ and command { "sh" "-c" "exit \\1" } move "%(dst)s/ok"
 	match header "X-Kind" /^attblock/ attachment {
 		match body /needle/ exec { "sh" "-c" "echo ran >> %(dst)s/ran-`basename $0`" "${path}" }
 	}
@@ -167,12 +170,21 @@ STDIN_CASES = [
     ('match header "X-Kind" /nomatch/ move "%(dst)s/ok"', 'plain', 0, 'n', False),
     ('match all move "%(dst)s/nowhere"', 'plain', 75, 'e', False),
     ('match all move "%(dst)s/\\5"', 'plain', 75, 'e', False),
+    # a condition whose arguments cannot be interpolated is an error, not a condition that does not hold
+    ('match command { "true" "\\0" } move "%(dst)s/ok"', 'plain', 75, 'e', False),
+    ('match header "To" /(u)/ and command { "true" "\\7" } move "%(dst)s/ok"\n\tmatch all move "%(dst)s/ok"', 'plain', 75, 'e', False),
+    ('match ! isdirectory "%(dst)s/\\3" move "%(dst)s/ok"\n\tmatch all move "%(dst)s/ok"', 'plain', 75, 'e', False),
     ('match date > 1 seconds move "%(dst)s/ok"', 'date-bad', 75, 'e', False),
     ('match body /needle/ move "%(dst)s/ok"', 'b64-bad', 75, 'e', False),
     ('match attachment header "Content-Type" /text/ move "%(dst)s/ok"', 'mime-deep', 75, 'e', False),
     ('match all exec { "sh" "-c" "exit 3" } move "%(dst)s/ok"', 'plain', 75, 'e', False),
     ('match all exec { "sh" "-c" "exit 0" } move "%(dst)s/ok"', 'plain', 0, 'd', True),
     ('match all label "x" move "%(dst)s/ok"', 'plain', 0, 'd', True),
+    # several location actions in one rule: wherever they take the message, status 0 means it is stored
+    ('match all move "%(dst)s/ok" flag !new', 'plain', 0, 'd', True),
+    ('match all add-header "X-A" "b" move "%(dst)s/ok" flag new', 'plain', 0, 'd', True),
+    ('match all move "%(dst)s/ok" flags "F"', 'plain', 0, 'd', True),          # F-25 on the unchanged tree
+    ('match all move "%(dst)s/ok" pass\n\tmatch all flags "T"', 'plain', 0, 'd', True),          # F-25 through pass
     # the input of an exec action cannot be prepared: an error for the message, whatever the command would have done
     ('match all exec stdin body { "sh" "-c" "cat >/dev/null" }', 'b64-bad', 75, 'e', False),
     ('match all exec stdin body { "sh" "-c" "cat >/dev/null" } move "%(dst)s/ok"', 'b64-bad', 75, 'e', False),
@@ -209,6 +221,8 @@ def stdin_run(ck, stats, case, i):
             ck.known_finding(key, 'rule %r: exit 0, message gone with the spool' % rule)
         else:
             ck.violation('stdin: exit 0 but the message was neither stored nor discarded (no rule matched)', rep)
+    elif rc == 0 and delivered and len(stored) != 1 and re.search(r'move "[^"]*"( pass\s+match all)? flags "', rule) and ck.is_known('F-25-stdin-move-then-flags-lost'):
+        ck.known_finding('F-25-stdin-move-then-flags-lost', 'rule %r: exit 0, the message is stored nowhere' % rule)
     elif rc == 0 and delivered and len(stored) != 1:
         ck.violation('stdin: exit 0 but the message is not stored intact at its destination (rule %r)' % rule, rep)
     elif rc != want:
